@@ -205,6 +205,8 @@ def gen_cases(tier, seed):
             c = {"api": apis[k % 3], "steps": steps, "shape": [ny, nx], "dtype": dtype, "nz": 4, "bits": [24, 53][k % 2], "family": "near-sentinel"}
             if ndv != ND:
                 c["ndv"] = ndv
+            if dtype == "float64" and abs(ndv) > 3.0e38:
+                c["bits"] = 53          # neighbours of such a sentinel have no float32 image: a float32 result would be +-inf (out of claim)
             k += 1
             add(c)
     # large zones in run-length form
